@@ -131,6 +131,7 @@ This results in a file containing
 
 from __future__ import annotations
 
+import itertools
 import warnings
 from collections.abc import Iterable, Iterator, Mapping
 from copy import copy
@@ -217,9 +218,6 @@ class CIF:
         self._content: list[Chunk | Loop] = []
         self._authors: list[Person] = []
         self._reducers: list[str] = []
-
-        # Should be long enough to never run out of IDs.
-        self._id_generator = (str(i) for i in range(1, 1_000_000_000))
 
     @property
     def name(self) -> str:
@@ -430,12 +428,15 @@ class CIF:
 
         results = []
         roles = {}
+        # Start numbering from 1 on every call so that saving the same builder
+        # repeatedly (or saving a copy) produces the same IDs.
+        id_generator = (str(i) for i in itertools.count(1))
         for authors, category in zip(
             (contact, regular), ('audit_contact_author', 'audit_author'), strict=True
         ):
             if not authors:
                 continue
-            data, rols = _serialize_authors(authors, category, self._id_generator)
+            data, rols = _serialize_authors(authors, category, id_generator)
             results.append(data)
             roles.update(rols)
         if roles:
